@@ -80,3 +80,14 @@ func VerifSendKeyUpdate(c *Conn, requestUpdate bool) error {
 	c.out.setTrafficSecret(cipherSuite, QUICEncryptionLevelInitial, newSecret)
 	return nil
 }
+
+// VerifRollerSeed replaces the Roller's private prng by one with the given seed (the shuffle
+// decisions of the next Dial are then a function of seed).
+func VerifRollerSeed(r *Roller, seed PRNGSeed) error {
+	p, err := newPRNGWithSeed(&seed)
+	if err != nil {
+		return err
+	}
+	r.r = p
+	return nil
+}
